@@ -227,6 +227,19 @@ def skeleton_stage(ctx, l, rows):
                       dict(level=l, op=o_, comparison=r_[:1500], how="lean driver op; real code: theta.trace with the same row/n/mode on the sanitizer build"), found=False)
 
 
+def rec_skeleton_stage(ctx):
+    """tie T: integer skeleton of the balanced recursion theta_chain_comput_rec (re-extracted from the C text) vs the
+    hand model `balanced n` (steps, kernel exponents, final stack, fault status), executed for every n in a range"""
+    hi = 0x101 if ctx.quick else 0x401
+    out = ctx.driver(["skel.rec 4 %x" % hi])[0].split()
+    ctx.evaluations += hi - 4
+    ok = len(out) == 2 and out[0] == "0"
+    ctx.obligation("integer skeleton of theta_chain_comput_rec (SqiGen.ChainSkel) = hand model balanced n for 4 <= n < %d" % hi, ok, " ".join(out)[:200])
+    if not ok:
+        ctx.violation("skeleton:rec", "the integer skeleton re-extracted from theta_chain_comput_rec no longer matches the model of balanced_chain_sound",
+                      dict(op="skel.rec 4 %x" % hi, comparison=" ".join(out)[:500], how="lean driver op; real code: theta.bal traces on the sanitizer build"), found=False)
+
+
 def search(ctx):
     ctx.lake(["driver"])
     try:
@@ -300,6 +313,7 @@ def run(ctx):
     vlib.proof_stage(ctx, mods, searcher=lambda: search(ctx), extra_targets=("driver",))
     ctx.lake(["driver"])
     levels = (1, 3, 5)
+    rec_skeleton_stage(ctx)
     for l in levels:
         exe = ctx.cc_harness(DRV, os.path.join(ctx.tmp, "drv_chain_%d" % l), l)
         _, rows = table_rows(l)
